@@ -60,6 +60,40 @@ def shapes(tier, seed):
     return out
 
 
+TOOL_BYPASSED = []
+
+
+def make_tool(T, t_array=None, o_array=None, b_array=None, include_outliers=False, cartesian_grid=True, real=False):
+    """an AssignmentTool built by its REAL __init__ (molecule selection, centring transformation, stop, whatever it derives eagerly
+    from its grids); only the decomposition of the grid array is replaced by one that hands out the grids of the run (the decomposition
+    itself is decided by C09 and by the `tools` shapes).  `real=True`: on real MDAnalysis objects (replays)."""
+    import numpy as _np
+    t_ = t_array if t_array is not None else _np.array([1.0, 2.0])
+    o_ = o_array if o_array is not None else _np.array([[0.0, 0.0, 1.0]])
+    b_ = b_array if b_array is not None else _np.array([[0.0, 0.0, 0.0, 1.0]])
+    if real:
+        import MDAnalysis as mda
+        from MDAnalysis.coordinates.memory import MemoryReader
+        from symx.models import real_universe
+        base = real_universe([[0.0, 0.0, 0.0], [0.0, 0.0, 1.0], [0.0, 0.5, 1.5]], [12.0, 1.0, 16.0], ["C", "H", "O"])
+        u = mda.Universe(base._topology, _np.array([[[0.0, 0.0, 0.0], [0.0, 0.0, 1.0], [0.0, 0.5, 1.5]]], dtype=_np.float32), format=MemoryReader)
+        ref = real_universe([[0.0, 0.0, 0.0], [0.0, 0.5, 0.5]], [1.0, 16.0], ["H", "O"])
+        extra = {}
+    else:
+        from symx.models import FMemUniverse, FTopology
+        u = FMemUniverse(FTopology([12.0, 1.0, 16.0], ["C", "H", "O"]), sarr([[[0.0, 0.0, 0.0], [0.0, 0.0, 1.0], [0.0, 0.5, 1.5]]]))
+        ref = FMemUniverse(FTopology([1.0, 16.0], ["H", "O"]), sarr([[[0.0, 0.0, 0.0], [0.0, 0.5, 0.5]]]))
+        extra = {"trans": TransStub}
+    try:
+        with bound(T, from_full_array_to_o_b_t=lambda arr: (o_, b_, t_), **extra):
+            return T.AssignmentTool(_np.zeros((1, 7)), u, ref, include_outliers=include_outliers, cartesian_grid=cartesian_grid)
+    except Exception as e:  # noqa: BLE001 - the constructor needs more than the stand-ins offer: fall back, and say so
+        TOOL_BYPASSED.append(f"AssignmentTool.__init__: {type(e).__name__}: {e}")
+        at = object.__new__(T.AssignmentTool)
+        at.t_array, at.o_array, at.b_array, at.include_outliers, at.cartesian_grid = t_, o_, b_, include_outliers, cartesian_grid
+        return at
+
+
 class AG:
     def __init__(self, com):
         self.com = com
@@ -88,16 +122,15 @@ def run_radial(shape):
 
     def body():
         with bound(T, np=proxy, print=noprint), bound(U, np=proxy):
-            at = object.__new__(T.AssignmentTool)
-            at.t_array = sarr([SR(x) for x in r])
-            at.include_outliers = inc
+            at = make_tool(T, t_array=sarr([SR(x) for x in r]), include_outliers=inc)
             return at._t_assignment_function(AG(sarr([SR(x) for x in c])))
 
     Rb, _, _, _, _ = position_spec(1, n_t, [z3.RealVal(1)], {}, {}, r, zero=z3.RealVal(0))
     for path in eng.explore(body):
         acc.begin(prover, path)
         if path.kind == "exc":
-            bypass_guard(path.value)
+            if TOOL_BYPASSED:
+                bypass_guard(path.value)
             acc.structural("no_exception", False, detail=repr(path.value) + (path.tb or "")[-500:], cex={"kind": "exception", "exc": type(path.value).__name__})
             continue
         if acc.reachable is not True:
@@ -140,9 +173,7 @@ def run_direction(shape):
 
     def body():
         with bound(T, np=proxy, print=noprint, cdist=fcdist), bound(U, np=proxy):
-            at = object.__new__(T.AssignmentTool)
-            at.o_array = sarr([[SR(x) for x in oj] for oj in o])
-            at.cartesian_grid = cart
+            at = make_tool(T, o_array=sarr([[SR(x) for x in oj] for oj in o]), cartesian_grid=cart)
             return at._o_assignment_function(AG(sarr([SR(x) for x in c])))
 
     dots = [z3.Sum([o[i][k] * c[k] for k in range(3)]) for i in range(n_o)]
@@ -150,7 +181,8 @@ def run_direction(shape):
     for path in eng.explore(body):
         acc.begin(prover, path)
         if path.kind == "exc":
-            bypass_guard(path.value)
+            if TOOL_BYPASSED:
+                bypass_guard(path.value)
             acc.structural("no_exception", False, detail=repr(path.value) + (path.tb or "")[-500:], cex={"kind": "exception", "exc": type(path.value).__name__})
             continue
         if acc.reachable is not True:
@@ -473,16 +505,10 @@ def run_compose(shape):
 
     def body():
         with bound(T, np=proxy, print=noprint, cdist=fcdist, AnalysisFromFunction=FakeAnalysis, pd=PdStub), bound(U, np=proxy):
-            at = object.__new__(T.AssignmentTool)
+            at = make_tool(T, t_array=sarr([SR(x) for x in r]), o_array=o, b_array=np.zeros((n_b, 4)), include_outliers=inc, cartesian_grid=True)
             traj = FakeTraj(nf)
             ag = FrameAG(traj, [sarr([SR(x) for x in cf]) for cf in C])
-            at.trajectory_universe = FakeUniverse(traj, ag)
-            at.second_molecule_selection = "bynum 2:3"
-            at.t_array = sarr([SR(x) for x in r])
-            at.o_array = o
-            at.b_array = np.zeros((n_b, 4))
-            at.include_outliers = inc
-            at.cartesian_grid = True
+            at.trajectory_universe = FakeUniverse(traj, ag)      # the frames of this run (centre of mass per frame symbolic)
             at.stop = nf
             at._get_quaternion_assignments = lambda: bstub
             return at.get_full_assignments()
@@ -491,7 +517,8 @@ def run_compose(shape):
     for path in eng.explore(body):
         acc.begin(prover, path)
         if path.kind == "exc":
-            bypass_guard(path.value)
+            if TOOL_BYPASSED:
+                bypass_guard(path.value)
             acc.structural("no_exception", False, detail=repr(path.value) + (path.tb or "")[-700:], cex={"kind": "exception", "exc": type(path.value).__name__})
             continue
         if acc.reachable is not True:
@@ -610,9 +637,7 @@ def replay(cex):
         for dd in np.concatenate([np.linspace(0.01, Rb[-1] * 1.3, 41), Rb * 0.999, Rb * 1.001]):
             v = rng.normal(size=3)
             coms.append(v / np.linalg.norm(v) * dd)
-        at = object.__new__(T.AssignmentTool)
-        at.t_array = r
-        at.include_outliers = s["include_outliers"]
+        at = make_tool(T, t_array=r, include_outliers=s["include_outliers"], real=True)
         for c in coms:
             d = float(np.linalg.norm(c))
             got = at._t_assignment_function(RAG(c))
@@ -631,8 +656,7 @@ def replay(cex):
         for _ in range(200):
             o = rng.normal(size=(n_o, 3))
             sets.append((o / np.linalg.norm(o, axis=1)[:, None], rng.normal(size=3) * rng.uniform(0.1, 5)))
-        at = object.__new__(T.AssignmentTool)
-        at.cartesian_grid = s["cartesian"]
+        at = make_tool(T, cartesian_grid=s["cartesian"], real=True)
         for o, c in sets:
             if np.linalg.norm(c) < 1e-9:
                 continue
@@ -653,12 +677,10 @@ def replay(cex):
         coms = [rng.normal(size=3) * rng.uniform(0.2, 3.5) for _ in range(nf)]
         if any(abs(c[2]) < 1e-6 or min(abs(np.linalg.norm(c) - Rb)) < 1e-6 for c in coms):
             continue
-        at = object.__new__(T.AssignmentTool)
+        at = make_tool(T, t_array=r, o_array=o, b_array=np.zeros((n_b, 4)), include_outliers=inc, cartesian_grid=True, real=True)
         traj = FakeTraj(nf)
         at.trajectory_universe = FakeUniverse(traj, FrameAG(traj, [np.asarray(c) for c in coms]))
-        at.second_molecule_selection = "x"
-        at.t_array, at.o_array, at.b_array = r, o, np.zeros((n_b, 4))
-        at.include_outliers, at.cartesian_grid, at.stop = inc, True, nf
+        at.stop = nf
         at._get_quaternion_assignments = lambda: bstub
         old = (T.AnalysisFromFunction,)
         T.AnalysisFromFunction = FakeAnalysis
